@@ -3,6 +3,7 @@ package main
 import (
 	"encoding/json"
 	"fmt"
+	"reflect"
 	"sort"
 	"strings"
 	"unicode/utf8"
@@ -244,7 +245,7 @@ func dump(v interface{}) string {
 		}
 		return fmt.Sprintf("f%v", x)
 	case string:
-		return fmt.Sprintf("s%q", x)
+		return fmt.Sprintf("s%d:%s", utf8.RuneCountInString(x), x)
 	case []interface{}:
 		parts := make([]string, len(x))
 		for i, e := range x {
@@ -271,9 +272,32 @@ func dump(v interface{}) string {
 		sort.Strings(keys)
 		parts := make([]string, len(keys))
 		for i, k := range keys {
-			parts[i] = fmt.Sprintf("%q:%s", k, dump(x[k]))
+			parts[i] = fmt.Sprintf("%s=%s", dump(k), dump(x[k]))
 		}
 		return "{" + strings.Join(parts, ",") + "}"
+	}
+	rv := reflect.ValueOf(v)
+	switch rv.Kind() {
+	case reflect.Slice, reflect.Array:
+		parts := make([]string, rv.Len())
+		for i := range parts {
+			parts[i] = dump(rv.Index(i).Interface())
+		}
+		return "[" + strings.Join(parts, ",") + "]"
+	case reflect.Map:
+		type kv struct{ k, v string }
+		var kvs []kv
+		for _, k := range rv.MapKeys() {
+			kvs = append(kvs, kv{dump(k.Interface()), dump(rv.MapIndex(k).Interface())})
+		}
+		sort.Slice(kvs, func(i, j int) bool { return kvs[i].k < kvs[j].k })
+		parts := make([]string, len(kvs))
+		for i, e := range kvs {
+			parts[i] = e.k + "=" + e.v
+		}
+		return "{" + strings.Join(parts, ",") + "}"
+	case reflect.Int, reflect.Int8, reflect.Int16, reflect.Int32, reflect.Int64:
+		return fmt.Sprintf("i%d", rv.Int())
 	}
 	return fmt.Sprintf("?%T:%v", v, v)
 }
